@@ -39,6 +39,11 @@ Semantic conventions of the emitted text (all elementary):
     (dict of elements, default 0) / `group_at d k` (dict of lists, default []): the KeyError
     path of a missing key is NOT represented (the correspondence run would see the exception);
     `d[k] = e` is `d_set d k e`, `d[k].append(e)` is `d_set d k (group_at d k ++ [e])`;
+  * for `redundant` a second, CHECKED version is emitted as well (suffix _chk, result in
+    `option`): every subscript read `d[k]` is preceded by the test `d_mem d k`, every `xs[n]`
+    by `n <? length xs` (inside a comprehension: for all its items), and the function returns
+    None as soon as one fails (KeyError / IndexError); Proofs/C09_SrcLoops.v proves
+    checked = Some unchecked, i.e. the dict reads of the source never raise;
   * a boolean parameter listed in cfg["specialize"] is a compile-time constant: the function is
     translated once per value and `if <param>` picks its branch statically (needed where the
     two branches build results of different types: redundant(groups=...));
@@ -191,7 +196,7 @@ CFG = {
         "kinds": {"key_func": "fun", "key": "truthyflag", "groups": "static", "seen": "dict_elem",
                   "redundant_order": "list", "redundant_groups": "dict_list", "i": "elem", "k": "elem", "ret": "result"},
         "gparams": "(key_truthy : bool) (key_func : K -> K)", "gargs": "key_truthy key_func", "carried_free": [],
-        "prelude_may_bind": ["key_func"],
+        "prelude_may_bind": ["key_func"], "checked_version": True,
         "out": None, "specialize": ("groups", [False, True]),
         "result_type": {False: "list K", True: "list (list K)"},
         "types": {"seen": "pydict K", "redundant_order": "list K", "redundant_groups": "pydict (list K)"},
@@ -336,7 +341,62 @@ class _Tr:
 
     # ---------------------------------------------------------------- statements
     def end(self):
+        t = "(" + ", ".join(self.state) + ")"
+        return "Some " + t if getattr(self, "checked", False) and not getattr(self, "raw_end", False) else t
+
+    def tuple_pat(self):
         return "(" + ", ".join(self.state) + ")"
+
+    # ---- partial reads of a simple statement (checked mode) ----
+    def guards(self, s):
+        """Gallina boolean tests that must hold for the subscript READS in statement s not to raise"""
+        out = []
+
+        def walk(e, wrap):
+            if isinstance(e, ast.ListComp) and len(e.generators) == 1 and isinstance(e.generators[0].iter, ast.Name) \
+                    and isinstance(e.generators[0].target, ast.Name):
+                g = e.generators[0]
+                inner = []
+                saved_scope = set(self.scope)
+                self.scope.add(g.target.id)
+                walk_into(e.elt, inner)
+                self.scope = saved_scope
+                if inner:
+                    out.append("(forallb (fun %s : K => %s) %s)" % (g.target.id, " && ".join(inner), g.iter.id))
+                return
+            walk_into(e, out)
+
+        def walk_into(e, acc):
+            if isinstance(e, ast.ListComp):
+                walk(e, None)
+                return
+            if isinstance(e, ast.Subscript) and isinstance(e.ctx, ast.Load):
+                v = e.value
+                if isinstance(v, ast.Name) and self.kinds.get(v.id) in ("dict_elem", "dict_list"):
+                    acc.append("(d_mem %s %s)" % (v.id, self.expr(e.slice)))
+                elif isinstance(v, ast.Subscript) and isinstance(e.slice, ast.Constant):
+                    walk_into(v, acc)
+                    acc.append("(%d <? length %s)" % (e.slice.value, self.expr(v)))
+                    return
+                else:
+                    _fail(e, "unsupported subscript read in checked mode")
+            for c in ast.iter_child_nodes(e):
+                if isinstance(c, ast.expr):
+                    walk_into(c, acc)
+
+        if isinstance(s, (ast.Assign, ast.AugAssign, ast.Expr)):
+            if isinstance(s, ast.Assign):
+                for t in s.targets:
+                    if isinstance(t, ast.Subscript):
+                        walk_into(t.slice, out)
+                walk(s.value, None)
+            elif isinstance(s, ast.AugAssign):
+                walk(s.value, None)
+            else:
+                walk(s.value, None)
+        elif isinstance(s, ast.If):
+            walk(s.test, None)
+        return out
 
     def bind(self, name, node):
         if name not in self.state and name not in self.locals_ok:
@@ -349,6 +409,11 @@ class _Tr:
             return ind + final() + "\n"
         s, rest = stmts[0], stmts[1:]
         saved = set(self.scope)
+        if getattr(self, "checked", False) and not getattr(self, "_guarded", None) is s:
+            gs = self.guards(s)
+            if gs:
+                self._guarded = s
+                return ind + "if negb (%s) then None else\n" % " && ".join(gs) + self.block(stmts, ind, final)
         try:
             if isinstance(s, ast.Expr) and isinstance(s.value, ast.Constant) and isinstance(s.value.value, str):
                 return self.block(rest, ind, final)
@@ -441,7 +506,7 @@ class _Tr:
                 if self.generator and s.value is None:
                     return ind + final() + "\n"
                 if not self.generator and isinstance(s.value, ast.Name):
-                    return ind + self.expr(s.value) + "\n"
+                    return ind + ("Some " if getattr(self, "checked", False) else "") + self.expr(s.value) + "\n"
                 _fail(s, "unsupported return")
             if isinstance(s, ast.FunctionDef):
                 a = s.args
@@ -631,6 +696,23 @@ class _Tr:
         step_args = cfg["gargs"].replace("sep_func ", "") if "sep_func" in cfg["carried_free"] else cfg["gargs"]
         text += "Definition %s (src : list K) %s : %s :=\n%s  let '%s := fold_left (%s_step %s) src %s in\n%s.\n" % (
             g, cfg["gparams"], cfg["out"] or cfg.get("result_ty") or types[init_names[0]], pre, self.end(), g, step_args, self.end(), epi.rstrip("\n"))
+        if cfg.get("checked_version") and not self.generator:
+            # the same function with every partial read guarded; None = KeyError / IndexError
+            self.checked = True
+            self.scope = set(state) | free | {loop.target.id}
+            self.in_loop = True
+            step_c = self.block(list(loop.body), "    ", self.end)
+            text += "\nDefinition %s_chk_step %s (st : %s) (%s : K) : option (%s) :=\n  let '%s := st in\n%s.\n\n" % (
+                g, cfg["gparams"], sty, loop.target.id, sty, self.tuple_pat(), step_c.rstrip("\n"))
+            self.in_loop = False
+            self.scope = set(free) | set(state)
+            epi_c = self.block(list(epilogue), "    ", result)
+            rty = cfg["out"] or cfg.get("result_ty") or types[init_names[0]]
+            text += ("Definition %s_chk (src : list K) %s : option (%s) :=\n%s"
+                     "  match fold_left (fun acc x => match acc with Some st => %s_chk_step %s st x | None => None end) src (Some %s) with\n"
+                     "  | None => None\n  | Some %s =>\n%s\n  end.\n") % (
+                g, cfg["gparams"], rty, pre, g, step_args, self.tuple_pat(), self.tuple_pat(), epi_c.rstrip("\n"))
+            self.checked = False
         return text
 
 
